@@ -520,6 +520,26 @@ Observed observe(World& W, const Op& op, int seedShift, Ctx* c, bool judge13, lo
     o.ret = simpgs(din, W.dbout, rp, m1, m2, nu, nbsimu, seed, false, false, false, false, 20 + b % 30, 5, 20 + a % 20);
     o.digest = std::to_string(o.ret) + newColumnsDigest(W.dbout, nc);
     o.freeDefined = freeDefinedValues(W, nc);
+    if (getenv("SIMKIT_DEBUG_SIM") && din)
+    {
+      // debugging aid for replays
+      for (int ic = 0; ic < din->getColumnNumber(); ic++)
+      {
+        ELoc t; int rk;
+        din->getLocatorByColIdx(ic, &t, &rk);
+        fprintf(stderr, "din col %d %s %s%d:", ic, din->getNameByColIdx(ic).c_str(), std::string(t.getKey()).c_str(), rk);
+        for (int i = 0; i < din->getSampleNumber(); i++) fprintf(stderr, " %.5g", din->getValueByColIdx(i, ic));
+        fprintf(stderr, "\n");
+      }
+      DbGrid* gg = dynamic_cast<DbGrid*>(W.dbout);
+      for (int i = 0; gg && i < din->getSampleNumber(); i++)
+      {
+        int node = gg->coordinateToRank(din->getSampleCoordinates(i), false, 1e-9);
+        fprintf(stderr, "datum %d node %d :", i, node);
+        for (int ic = nc; node >= 0 && ic < W.dbout->getColumnNumber(); ic++) fprintf(stderr, " %s=%.5g", W.dbout->getNameByColIdx(ic).c_str(), W.dbout->getValueByColIdx(node, ic));
+        fprintf(stderr, "\n");
+      }
+    }
     if (judge13 && c && o.ret == 0 && cond)
     {
       DbGrid* g = dynamic_cast<DbGrid*>(W.dbout);
